@@ -51,6 +51,12 @@ def gen_program(rng):
             forms.append("(define v%d %s)" % (rng.randint(1, 9), rng.choice(vals)))
         else:
             forms.append(rng.choice(vals))       # a bare expression: evaluated, not printed
+    if rng.random() < 0.08:
+        # a program that writes more than a pipe buffer holds (64 KiB) before it ends or fails: everything displayed must arrive, in order
+        piece = rng.choice(["0123456789abcdefghijklmnopqrstuvwxyz-0123456789abcdefghijklmnopqrstuvwxyz", "line of output that is written many times over\n"])
+        forms.append("(define (spill n) (if (> n 0) (begin (display \"%s\") (spill (- n 1))) 'done))" % piece.replace("\n", "\\n"))
+        forms.append("(spill %d)" % rng.choice([1000, 1300]))
+        forms.append("(display 'after-the-flood)")
     fail, kind = None, None
     c = rng.random()
     if c < 0.4:
